@@ -208,3 +208,56 @@ theorem method_dispatch (label : String) (terms : List (Label × Int)) (lam : La
     subst hl hm; simp only [hb]
 
 end Pen
+
+namespace Pen
+
+/-- **the energy `BQM.add_linear_inequality_constraint` adds, as coded, for EITHER value of `cross_zero`** (BINARY model,
+    integer data): at every 0/1 sample it is `λ·(Σ aᵢzᵢ + Σ bⱼsⱼ − ub_c)²` over the returned slack terms `(sⱼ, bⱼ)` -/
+theorem bqmIneq_energy (label : String) (terms : List (Label × Int)) (lam : Rat) (c lb ub : Int) (cross : Bool) :
+    match bqmIneq label terms lam c lb ub cross with
+    | .ok bag sl => ∀ z, Bin01 z →
+        evalBag (toRat z) bag = lam * (((isum z terms + isum z sl - min (sumPos (terms.map (·.2))) (ub - c))
+          * (isum z terms + isum z sl - min (sumPos (terms.map (·.2))) (ub - c)) : Int) : Rat)
+    | _ => True := by
+  unfold bqmIneq
+  have hu : ∀ ubc, (ineqPlan (terms.map (·.2)) c lb ub = .equality ubc ∨ ∃ lbc S, ineqPlan (terms.map (·.2)) c lb ub = .slack ubc lbc S) →
+      ubc = min (sumPos (terms.map (·.2))) (ub - c) := by
+    intro ubc h
+    unfold ineqPlan at h
+    simp only at h
+    rcases h with h | ⟨lbc, S, h⟩ <;> (split at h <;> try split at h <;> try split at h) <;> simp_all
+  cases hp : ineqPlan (terms.map (·.2)) c lb ub with
+  | skip => trivial
+  | infeasible => trivial
+  | equality ubc =>
+    simp only
+    intro z hz
+    rw [← hu ubc (Or.inl hp), ratTerms_eq, penalty_int z hz]
+    have e : isum z terms + isum z [] - ubc = isum z terms + -ubc := by simp only [isum]; omega
+    rw [e]
+  | slack ubc lbc S =>
+    simp only
+    intro z hz
+    rw [← hu ubc (Or.inr ⟨lbc, S, hp⟩), evalBag_append, touch_eval, ratTerms_eq, penalty_int z hz, isum_append]
+    simp only [Rat.zero_add]
+    have e : isum z terms + isum z (bqmSlack label ubc lbc S cross) - ubc = isum z terms + isum z (bqmSlack label ubc lbc S cross) + -ubc := by omega
+    rw [e]
+
+end Pen
+
+namespace Pen
+
+/-- the DQM log2 method with `cross_zero=True`, over the extracted coefficient / guard: one more two-case variable whose
+    case 1 carries `ub_c` — whenever `lb_c > 0 or ub_c < 0` (no further guard, unlike the BQM method) -/
+theorem dqmSlack_cross_labels (label : String) (ubc lbc : Int) (S : Nat) :
+    (dqmSlack label "log2" ubc lbc S true).map (fun v => (v.label, v.ncases, v.cases)) =
+      (dqmSlack label "log2" ubc lbc S false).map (fun v => (v.label, v.ncases, v.cases)) ++
+        (if zeroConstraintBy dqmZeroNeedsPositive true ubc lbc S then
+          [(s!"slack_{label}_{Nat.log2 S + 1}", 2, [(1, zeroCoefBy dqmZeroCoef ubc S)])] else []) := by
+  have h1 : dqmZeroNeedsPositive = false := by decide
+  have h2 : dqmZeroCoef = .ubc := by decide
+  simp only [dqmSlack, zeroConstraintBy, zeroCoefBy, h1, h2, Bool.true_and, Bool.false_and, Bool.not_false, Bool.true_or,
+    Bool.and_true, Bool.false_eq_true, if_false, if_true]
+  split <;> simp
+
+end Pen
